@@ -7,8 +7,8 @@ Line protocol of the consumer-side scenarios (C03, C11): the concrete receive mo
      tok = `b<eom>:<bodyhex>` | `h:<msgType>`   a packet arrives
          | `+e` | `+n`                          one more EED / env-change hook is registered
          | `r`                                  the consumer calls NextPackageUntil once (round i uses spec i mod #specs)
-     spec = `nil` | `final` | `stop<j>` | `eof<j>` | `fail<j>`  (outcome at the j-th callback of the call,
-            otherwise stop at the final DONE)
+     spec = `nil` | `final` | `stop<j>` | `eof<j>` | `fail<j>` | `weof<j>` | `ueof<j>` (outcome at the j-th
+            callback of the call, otherwise stop at the final DONE)
 Answer: `<round> ;; <round> … ;; left=<queued> E=<channel errors> PS=<packet size> H=[<hook calls>]`,
 round = `[<seen by the callback> | …] -> <result>`.
 -/
@@ -36,7 +36,9 @@ def cbOf (spec : String) : Nat × Pkg → Cb := fun (i, p) =>
   let dflt : Cb := if Codec.ops.isDoneFinal p then .stop else .cont
   if spec.startsWith "stop" then (if specNum spec 4 = some i then .stop else dflt)
   else if spec.startsWith "eof" then (if specNum spec 3 = some i then .eof else dflt)
-  else if spec.startsWith "fail" then (if specNum spec 4 = some i then .fail else dflt)
+  else if spec.startsWith "fail" ∨ spec.startsWith "weof" ∨ spec.startsWith "ueof" then
+    -- any error other than io.EOF itself: an error wrapping io.EOF (weof) or io.ErrUnexpectedEOF (ueof) too
+    (if specNum spec 4 = some i then .fail else dflt)
   else dflt
 
 def seenOf (cb : Nat × Pkg → Cb) : List (Nat × Pkg) → List Pkg
